@@ -30,6 +30,12 @@ func init() {
 			"first-byte-distinct", "bytes/nul", "bytes/>=0x80", "deep-common-prefix", "fan-out/257-children", "fan-out/256-children", "keys>=40000", "keys>2^18", "maxSize>=2^30", "same-buffer-refilled-in-place"},
 		Families: func(c *mon.Config) []mon.Family {
 			fams := []mon.Family{
+				{Name: "cold-start", N: 1, Serial: true, Run: func(w *mon.W, _ int) {
+					l := coldPick(coldSigbitsCalls(), "ShardByPrefix", "FirstDiffBits")
+					if coldFirst(w, l) && coldLast(w, l) {
+						w.Bucket("cold-start")
+					}
+				}},
 				{Name: "universe-subsets", N: 1 << 12, Run: c17Subsets},
 				{Name: "keyzoo", Env: 6, N: c.Pick(10000, 2000000), Run: c17Zoo},
 				{Name: "fan-out", Env: 2, N: 3 * 4 * 3, Run: c17FanOut},
